@@ -274,6 +274,12 @@ func (e *Expect) block(n *Node, a Anc, listLevel int) {
 					if v, ok := c.Get("colspan"); ok {
 						cell.ColSpan = atoiDefault(v, 1)
 					}
+					if cell.RowSpan < 1 {
+						cell.RowSpan = 1 // "0" is only written in the last row of a row group
+					}
+					if cell.ColSpan < 1 {
+						cell.ColSpan = 1
+					}
 					collect(c, ra, &cell.Leaves, &e.Forbidden)
 					u.Leaves = append(u.Leaves, cell.Leaves...)
 					row.Cells = append(row.Cells, cell)
